@@ -1,7 +1,7 @@
 #!/bin/bash
 # usage: seedtest.sh <patch.diff> <Cnn> [tier]   -- applies a seeded change to /repo, runs the check, reverts.
 set -u
-patch="$1"; prop="$2"; tier="${3:-quick}"
+patch="$(readlink -f "$1")"; prop="$2"; tier="${3:-quick}"
 cd /repo || exit 2
 if ! git diff --quiet; then echo "repo dirty"; exit 2; fi
 git apply "$patch" || { echo "patch does not apply"; exit 2; }
